@@ -149,6 +149,7 @@ func (m *Machine) RunCase(fnName string, s *Solver, opts Options) CaseResult {
 		rwHeld = map[*value]string{}
 		syncMaps = map[*value][]syncMapEntry{}
 		mapOrder = map[uintptr][]value{}
+		symEntries = map[uintptr][]symKV{}
 		if i.globals == nil {
 			i.globals = make(map[*ssa.Global]*value)
 			for _, p := range i.prog.AllPackages() {
